@@ -203,9 +203,12 @@ def analyse(chk, lib, set_text=True):
     chk.rule('R11.2', "the guessed index g is returned only under the facts A[g] <= q and q < A[g+1] for the same g, and A[g+1] is read only after A[g] <= q is known")
     chk.rule('R11.3', "binary search: the invariant A[lo] <= q < A[hi] holds on loop entry on every path and is preserved by every path through the loop body (branch polarity)")
     chk.rule('R11.4', "the only values returned are 0 (left clamp), len-2 (right clamp), an accepted guess, and the lower bound of the final pair")
+    chk.rule('R11.6', "progress of the binary search: it continues exactly under lower + 1 < upper, probes the integer midpoint (strictly between the bounds by the floor-division lemma), reads only there: "
+                      "hence terminates, never probes out of bounds, and returns lower <= upper - 1 <= len - 2")
     chk.rule('R11.5', "get_index_left_of of both interpolators passes the matching axis and the unmodified query (shared with C18 R18.3)")
     chk.assumptions += [
-        "NOT decided (runtime arithmetic): termination, that the midpoint lies strictly between the bounds, that the float guess is a valid index (<= len-1), the `unimplemented!` on NaN",
+        "NOT decided (runtime floating-point arithmetic): that the even-spacing guess is a valid index (<= len-1) and does not overflow, the `unimplemented!` casts on NaN / huge values",
+        "integer lemma used for R11.6: for lo + 1 < hi, lo < lo + (hi - lo) / 2 < hi (floor division)",
         "with a strictly rising NaN-free axis and a non-NaN query the order facts are total: not(A[k] <= q) implies q < A[k]",
         "on loop exit (not lo+1 < hi) together with A[lo] <= q < A[hi] and strict monotonicity gives hi = lo+1, i.e. the returned lo brackets q",
     ]
@@ -277,6 +280,23 @@ def analyse(chk, lib, set_text=True):
             chk.ob('R11.3', "loop body updates exactly one bound to the probed index", (lo1 == 'lo') != (hi1 == 'hi'), rep['where'], 'one-bound-%s-%s' % (lo1, hi1))
         chk.ob('R11.3', "loop body has both continuation paths (found %d) and an exit path" % nstep,
                nstep == 2 and any(s['exit'] for s in rep['steps']), rep['where'], 'body-paths')
+        # R11.6 progress: the probe lies strictly between the bounds, so the interval shrinks and every probe is a valid index
+        for st in rep['steps']:
+            if st['exit']:
+                cond = [d for d in st['decisions'] if d[0].startswith('index ')]
+                chk.ob('R11.6', "the loop exits exactly when not (lower + 1 < upper) (exit decisions: %s)" % cond,
+                       cond == [('index 1 + lo lt hi', False)], rep['where'], 'loop-exit-cond')
+                continue
+            cond = [d for d in st['decisions'] if d[0].startswith('index ')]
+            lo1, hi1 = st['state']
+            probe = hi1 if lo1 == 'lo' else lo1
+            chk.ob('R11.6', "the loop continues exactly under lower + 1 < upper (decisions: %s)" % cond, cond == [('index 1 + lo lt hi', True)],
+                   rep['where'], 'loop-cond-%s' % probe)
+            chk.ob('R11.6', "the probed index is the midpoint (lower + upper) / 2 in integer arithmetic (got %s): with lower + 1 < upper it lies strictly "
+                            "between the bounds, so the interval shrinks (termination) and the probe is a valid index" % probe,
+                   probe == '1/2*hi + 1/2*lo', rep['where'], 'midpoint-%s' % probe)
+            chk.ob('R11.6', "the only axis read of the loop body is at the probed index (reads: %s)" % st['reads'], set(st['reads']) == {probe}, rep['where'],
+                   'loop-reads-%s' % probe)
     chk.note('loop_entry_states', sorted(seen_states))
     # R11.5 callers
     from ..kmodel import interp1d_obj, interp2d_obj
